@@ -9,7 +9,7 @@ rm -rf $WT; git -C /repo worktree prune; git -C /repo worktree add --detach $WT 
 trap 'git -C /repo worktree remove --force '$WT' >/dev/null 2>&1; rm -rf '$WT' /tmp/seedout-'$NAME EXIT
 git -C $WT apply /verif/seeded/$NAME/patch.diff || { echo "patch does not apply"; exit 2; }
 for ID in "$@"; do
-  OUT=$(VERIF_REPO=$WT VERIF_BUILD=/tmp/seedout-$NAME/build VERIF_OUT=/tmp/seedout-$NAME timeout ${TMO:-1800} /verif/vcheck $ID --tier ${TIER:-quick} 2>&1); RC=$?
+  OUT=$(VERIF_FAIL_FAST=${FAIL_FAST:-1} VERIF_REPO=$WT VERIF_BUILD=/tmp/seedout-$NAME/build VERIF_OUT=/tmp/seedout-$NAME timeout ${TMO:-1800} /verif/vcheck $ID --tier ${TIER:-quick} 2>&1); RC=$?
   N=$(echo "$OUT" | grep -c "^VIOLATION property=$ID")
   echo "SEED $NAME check $ID tier ${TIER:-quick}: rc=$RC violations=$N :: $(echo "$OUT" | grep -m2 'violated:' | tr '\n' ' ' | cut -c1-300)"
   [ "${VERBOSE:-0}" = 1 ] && echo "$OUT" | grep -v conda | tail -20
